@@ -133,7 +133,8 @@ def get_cardinality_formula(relation: Relation) -> str:
     parent = relation.parent.name
     children = [child.name for child in relation.children]
     or_ctc = []
-    for k in range(relation.card_min, relation.card_max + 1):
+    card_max = len(children) if relation.card_max < 0 else relation.card_max  # [a..*]
+    for k in range(relation.card_min, card_max + 1):
         combi_k = list(itertools.combinations(children, k))
         for positives in combi_k:
             negatives = [child for child in children if child not in positives]
@@ -145,8 +146,12 @@ def get_cardinality_formula(relation: Relation) -> str:
             else:
                 and_ctc = f'{positives_and_ctc}{negatives_and_ctc}'
             or_ctc.append(and_ctc)
-    formula_or_ctc = f'{f" {PLWriter.LogicConnective.OR} ".join(or_ctc)}'
-    return f'{parent} {PLWriter.LogicConnective.EQUIVALENCE} {formula_or_ctc}'
+    formula_or_ctc = f'{f" {PLWriter.LogicConnective.OR} ".join(f"({ctc})" for ctc in or_ctc)}'
+    or_children = f" {PLWriter.LogicConnective.OR} ".join(children)
+    # the children need the parent, and the parent needs an allowed combination of children
+    return f'(({or_children}) {PLWriter.LogicConnective.IMPLIES} {parent}) ' \
+           f'{PLWriter.LogicConnective.AND} ' \
+           f'({parent} {PLWriter.LogicConnective.IMPLIES} ({formula_or_ctc}))'
 
 
 def get_constraint_formula(ctc: Constraint) -> str:
